@@ -646,3 +646,166 @@ Lemma more_workers_than_samples :
   file_after bad_cfg (all_ops bad_cfg) (1200 * 18) = Some (0, 176, 0) /\
   expected bad_cfg (1200 * 18) = Some (0, 1200, 0).
 Proof. vm_compute. repeat split; reflexivity. Qed.
+
+(* ------------------------------------------------------------------------ *)
+(* The saturation vector: whose verdict stays at each sample                   *)
+(* ------------------------------------------------------------------------ *)
+Section Sat.
+Variable c : cfg.
+Hypothesis D : dom c.
+Set Default Proof Using "D".
+
+Definition sat_of (k : Z) : sat_op := (first_of c k, last_of c k).
+
+Lemma sat_ops_closed op : In op (all_sat_ops c) -> exists k, 0 <= k <= last_batch c /\ op = sat_of k.
+Proof.
+  unfold all_sat_ops, workers. rewrite in_flat_map. intros (r & Hr & Hop).
+  apply in_map_iff in Hr. destruct Hr as (i & <- & Hi). apply in_zrange in Hi.
+  pose proof D as D'. unfold dom in D'.
+  destruct (worker_never_fails c D i ltac:(lia)) as (evs & pads & Hw). rewrite Hw in Hop. cbn [sat_ops_of] in Hop.
+  apply in_map_iff in Hop. destruct Hop as (e & <- & He).
+  destruct (worker_events_closed c D i evs pads e ltac:(lia) Hw He) as (k & Hk & ->).
+  exists k. split; [exact Hk|reflexivity].
+Qed.
+
+Lemma sat_op_present k : 0 <= k <= last_batch c -> In (sat_of k) (all_sat_ops c).
+Proof.
+  intros Hk. destruct (workers_cover c D k Hk) as (i & evs & pads & Hi & Hw & Hin & _).
+  unfold all_sat_ops, workers. apply in_flat_map. exists (worker c i). split.
+  - apply in_map. apply in_zrange. lia.
+  - rewrite Hw. cbn [sat_ops_of]. apply in_map_iff. exists (batch_event c k). split; [reflexivity|exact Hin].
+Qed.
+
+(* batch k's slice holds g  <->  sat_first g <= k <= sat_last g *)
+Lemma cover_iff k g : 0 <= k <= last_batch c -> 0 <= g < c_ns c ->
+  (first_of c k <= g < last_of c k <-> sat_first c g <= k <= sat_last c g).
+Proof.
+  intros Hk Hg. pose proof (stride_pos c D) as HS.
+  unfold sat_first, sat_last, last_of, first_of.
+  pose proof (cdiv_spec (g - c_NB c + 1) (stride c) HS) as Hc.
+  set (q := cdiv (g - c_NB c + 1) (stride c)) in *.
+  pose proof (Z.div_mod g (stride c) ltac:(lia)) as Hdm.
+  pose proof (Z.mod_pos_bound g (stride c) HS) as Hmb.
+  set (d := g / stride c) in *.
+  split.
+  - intros [H1 H2]. assert (H3 : g < c_NB c + stride c * k) by lia. split.
+    + apply Z.max_lub; [lia|]. nia.
+    + apply Z.min_glb; [lia|]. nia.
+  - intros [H1 H2]. assert (q <= k) by lia. assert (k <= d) by lia. split; [nia|].
+    apply Z.min_glb_lt; [nia|lia].
+Qed.
+
+Lemma sat_range_nonempty g : 0 <= g < c_ns c ->
+  0 <= sat_first c g <= sat_last c g /\ sat_last c g <= last_batch c.
+Proof.
+  intros Hg. destruct (read_cover c D g Hg) as (k & Hk & Hr).
+  apply (cover_iff k g Hk Hg) in Hr. unfold sat_first, sat_last in *. lia.
+Qed.
+
+Lemma sat_fold_inv g : forall sched cur,
+  let r := fold_left (sat_apply g) sched cur in
+  r = cur \/ exists op, In op sched /\ fst op <= g < snd op /\ r = Some (fst op, g - fst op).
+Proof.
+  induction sched as [|op rest IH]; intros cur; cbn [fold_left].
+  - left. reflexivity.
+  - remember (sat_apply g cur op) as c1 eqn:Ec1.
+    destruct (IH c1) as [H|(op' & Hin & Hc & Hr)].
+    + unfold sat_apply in Ec1. destruct ((fst op <=? g) && (g <? snd op)) eqn:E.
+      * right. exists op. split; [left; reflexivity|]. apply andb_true_iff in E.
+        rewrite Z.leb_le, Z.ltb_lt in E. split; [lia|]. rewrite H. exact Ec1.
+      * left. rewrite H. exact Ec1.
+    + right. exists op'. split; [right; exact Hin|]. split; assumption.
+Qed.
+
+Lemma sat_fold_some g : forall sched cur,
+  cur <> None \/ (exists op, In op sched /\ fst op <= g < snd op) ->
+  fold_left (sat_apply g) sched cur <> None.
+Proof.
+  induction sched as [|op rest IH]; intros cur H; cbn [fold_left].
+  - destruct H as [H|(op & [] & _)]. exact H.
+  - apply IH. unfold sat_apply. destruct ((fst op <=? g) && (g <? snd op)) eqn:E.
+    + left. discriminate.
+    + destruct H as [H|(op' & [<-|Hin] & Hc)].
+      * left. exact H.
+      * exfalso. apply andb_false_iff in E. rewrite Z.leb_gt, Z.ltb_ge in E. lia.
+      * right. exists op'. split; assumption.
+Qed.
+
+Lemma sat_any_schedule sched g : Permutation sched (all_sat_ops c) ->
+  (0 <= g < c_ns c ->
+     exists k, sat_first c g <= k <= sat_last c g /\ sat_after sched g = Some (first_of c k, g - first_of c k)) /\
+  (~ 0 <= g < c_ns c -> sat_after sched g = None).
+Proof.
+  intros Hp. unfold sat_after. split.
+  - intros Hg. destruct (sat_fold_inv g sched None) as [H|(op & Hin & Hc & Hr)].
+    + exfalso. apply (sat_fold_some g sched None); [|exact H]. right.
+      destruct (read_cover c D g Hg) as (k & Hk & Hr). exists (sat_of k). split; [|exact Hr].
+      apply (Permutation_in _ (Permutation_sym Hp)). apply sat_op_present. exact Hk.
+    + apply (Permutation_in _ Hp) in Hin. destruct (sat_ops_closed op Hin) as (k & Hk & ->).
+      exists k. split; [apply (cover_iff k g Hk Hg); exact Hc|exact Hr].
+  - intros Hg. destruct (sat_fold_inv g sched None) as [H|(op & Hin & Hc & _)]; [exact H|exfalso].
+    apply (Permutation_in _ Hp) in Hin. destruct (sat_ops_closed op Hin) as (k & Hk & ->).
+    pose proof (tile_inside c D k Hk). cbn [sat_of fst snd] in Hc. lia.
+Qed.
+
+(* sequential order (one worker): the last covering batch wins *)
+Lemma zseq_snoc : forall n k, zseq k (S n) = zseq k n ++ [k + Z.of_nat n].
+Proof.
+  induction n as [|n IH]; intros k.
+  - cbn. f_equal. lia.
+  - change (zseq k (S (S n))) with (k :: zseq (k + 1) (S n)). rewrite IH.
+    cbn [zseq app]. f_equal. f_equal. f_equal. lia.
+Qed.
+
+Lemma sat_seq_fold g : 0 <= g < c_ns c -> forall n, Z.of_nat n <= last_batch c + 1 ->
+  fold_left (sat_apply g) (map sat_of (zseq 0 n)) None =
+  (let hi := Z.min (sat_last c g) (Z.of_nat n - 1) in
+   if sat_first c g <=? hi then Some (first_of c hi, g - first_of c hi) else None).
+Proof.
+  intros Hg. destruct (sat_range_nonempty g Hg) as (Ha & Hb).
+  induction n as [|n IH]; intros Hn.
+  - cbn [zseq map fold_left]. cbv zeta.
+    destruct (sat_first c g <=? Z.min (sat_last c g) (Z.of_nat 0 - 1)) eqn:E; [apply Z.leb_le in E; lia|reflexivity].
+  - rewrite zseq_snoc, map_app, fold_left_app. cbn [map fold_left]. rewrite IH by lia. cbv zeta.
+    replace (0 + Z.of_nat n) with (Z.of_nat n) by lia.
+    unfold sat_apply. cbn [sat_of fst snd].
+    pose proof (cover_iff (Z.of_nat n) g ltac:(lia) Hg) as Hcov.
+    destruct ((first_of c (Z.of_nat n) <=? g) && (g <? last_of c (Z.of_nat n))) eqn:E.
+    + apply andb_true_iff in E. rewrite Z.leb_le, Z.ltb_lt in E. apply Hcov in E.
+      replace (Z.min (sat_last c g) (Z.of_nat (S n) - 1)) with (Z.of_nat n) by lia.
+      replace (sat_first c g <=? Z.of_nat n) with true by (symmetry; apply Z.leb_le; lia). reflexivity.
+    + assert (Hn' : ~ (sat_first c g <= Z.of_nat n <= sat_last c g)).
+      { intros Hc. apply Hcov in Hc. apply andb_false_iff in E. rewrite Z.leb_gt, Z.ltb_ge in E. lia. }
+      destruct (Z_lt_le_dec (Z.of_nat n) (sat_first c g)) as [Hlt|Hge].
+      * replace (sat_first c g <=? Z.min (sat_last c g) (Z.of_nat n - 1)) with false by (symmetry; apply Z.leb_gt; lia).
+        replace (sat_first c g <=? Z.min (sat_last c g) (Z.of_nat (S n) - 1)) with false by (symmetry; apply Z.leb_gt; lia).
+        reflexivity.
+      * replace (Z.min (sat_last c g) (Z.of_nat (S n) - 1)) with (Z.min (sat_last c g) (Z.of_nat n - 1)) by lia.
+        reflexivity.
+Qed.
+
+Lemma sat_sequential g : c_P c = 1 -> 0 <= g < c_ns c ->
+  sat_after (all_sat_ops c) g = Some (first_of c (sat_last c g), g - first_of c (sat_last c g)).
+Proof.
+  intros HP Hg. destruct (sat_range_nonempty g Hg) as (Ha & Hb).
+  destruct (last_batch_spec c D) as (L1 & _).
+  assert (Hw : worker c 0 = WOk (map (batch_event c) (zseq 0 (Z.to_nat (last_batch c + 1))))
+                                (loop_pads c (last_batch c))).
+  { destruct (worker_spec c D 0 ltac:(lia)) as [(_ & Hlt & _)|(_ & m & Hm & Hw & Hbefore & Hstop)].
+    - rewrite (start_batch_zero c D) in Hlt. lia.
+    - rewrite (start_batch_zero c D) in *.
+      assert (m = last_batch c).
+      { destruct (Z.eq_dec m (last_batch c)) as [|Hne]; [assumption|exfalso].
+        unfold max_s in Hstop. replace (0 =? c_P c - 1) with true in Hstop by (symmetry; apply Z.eqb_eq; lia).
+        destruct (last_of_lt c D m ltac:(lia)). lia. }
+      subst m. rewrite Hw. f_equal. f_equal. f_equal. lia. }
+  unfold sat_after, all_sat_ops, workers. rewrite HP.
+  change (zrange (Z.to_nat 1)) with [0]. cbn [map flat_map]. rewrite Hw. cbn [sat_ops_of]. rewrite app_nil_r, map_map.
+  change (fun x => (e_first (batch_event c x), e_last (batch_event c x))) with sat_of.
+  rewrite (sat_seq_fold g Hg) by lia. cbv zeta.
+  replace (Z.min (sat_last c g) (Z.of_nat (Z.to_nat (last_batch c + 1)) - 1)) with (sat_last c g) by lia.
+  replace (sat_first c g <=? sat_last c g) with true by (symmetry; apply Z.leb_le; lia). reflexivity.
+Qed.
+
+End Sat.
+Unset Default Proof Using.
